@@ -290,6 +290,27 @@ def case_sidereal(mon, j, do_eq=True):
     mon.check("eqeq<1.2s", abs(diff_s) < 1.2,
               {"jde": j, "gast-gmst_s": diff_s, "eqeq_s": eqeq_s},
               key_eqeq(j, diff_s))
+    # the two arguments are the caller's: with a nutation that is not the
+    # real one - none at all (0 as an int, 0.0, a zero Angle), a tiny one, a
+    # negative one - the difference is the equation of the equinoxes of
+    # *that* nutation (documented types: int, float, Angle)
+    from pymeeus.Angle import Angle as _A
+    k = int(j * 7) % 6
+    dp = (0, 0.0, _A(0.0), 1e-6, -0.004, _A(-0.0031))[k]
+    ob = (23.44, _A(23.44), 23, 23.4392911, _A(23.45), 23.44)[k]
+    try:
+        ap2 = e.apparent_sidereal_time(ob, dp)
+    except Exception as ex:
+        mon.dev("gast-gmst==eqeq", {"jde": j, "obliquity": repr(ob),
+                                    "nutation": repr(dp),
+                                    "raised": repr(ex)})
+        return
+    want_s = float(dp) * 3600.0 * math.cos(math.radians(float(ob))) / 15.0
+    got_s = (ap2 - th) * 86400.0
+    mon.cls("caller-supplied-nutation", (j, k))
+    mon.check("gast-gmst==eqeq", abs(got_s - want_s) <= 1e-5,
+              lambda: {"jde": j, "obliquity": repr(ob), "nutation": repr(dp),
+                       "gast-gmst_s": got_s, "eqeq_s": want_s})
 
 
 def case_wrap(mon, j0):
